@@ -279,9 +279,89 @@ end Erbium.Generated.Pool
     write_if_changed(os.path.join(OUT, "Pool.lean"), out)
 
 
+def match_arms(body):
+    """top-level arms `pat => expr` of the first `match … { … }` in body -> list of (pattern, text)"""
+    m = re.search(r"\bmatch\b[^{]*\{", body)
+    if not m:
+        return None
+    i = m.end()
+    depth, j, arms, start = 1, i, [], i
+    # split on top-level commas / closing braces of arm blocks
+    while j < len(body) and depth > 0:
+        c = body[j]
+        if c in "{([":
+            depth += 1
+        elif c in "})]":
+            depth -= 1
+            if depth == 1 and c == "}":
+                arms.append(body[start:j + 1])
+                start = j + 1
+        elif c == "," and depth == 1:
+            arms.append(body[start:j])
+            start = j + 1
+        j += 1
+    out = []
+    for a in arms:
+        if "=>" in a:
+            pat, _, txt = a.partition("=>")
+            out.append((re.sub(r"\s+", "", pat).lstrip(","), txt))
+    return out
+
+
+def gen_acl():
+    http = strip_comments(read(os.path.join(CORE, "http.rs")))
+    sr = fn_body(http, "serve_request")
+    arms = match_arms(sr) if sr else None
+    table = []
+    ok = arms is not None
+    if ok:
+        for pat, txt in arms:
+            m = re.match(r'\(&Method::([A-Z]+),"([^"]*)"\)$', pat)
+            guard = re.findall(r"require_http_permission\([^;]*?acl::PermissionType::(\w+)", txt, re.S)
+            # the content must only be produced in the else-branch of `if let Some(ret) = require_http_permission(..)`
+            guarded = bool(re.search(r"if\s+let\s+Some\(ret\)\s*=\s*require_http_permission\(", txt)) and len(guard) == 1
+            if m:
+                table.append((m.group(1), m.group(2), guard[0] if guarded else None))
+            elif pat == "_":
+                table.append(("*", "*", guard[0] if guarded else None))
+            else:
+                ok = False
+    status["acl.httpArms"] = {"ok": bool(ok and table), "value": table, "where": "http.rs serve_request"}
+    dacl = strip_comments(read(os.path.join(CORE, "dns/acl.rs")))
+    hq = fn_body(dacl, "handle_query")
+    order = False
+    if hq:
+        a = re.search(r"acl::require_permission\(.*?acl::PermissionType::DnsRecursion\s*,?\s*\)\s*\.map_err\(Error::RefusedByAcl\)\?;", hq, re.S)
+        b = hq.find("self.next.handle_query")
+        order = bool(a and b > a.end() and hq.count("self.next.handle_query") == 1 and hq.find("return") > a.end())
+    status["acl.dnsAclFirst"] = {"ok": True, "value": order, "where": "dns/acl.rs handle_query"}
+
+    def perm(p):
+        return {"Http": ".http", "HttpMetrics": ".httpMetrics", "HttpLeases": ".httpLeases", "DnsRecursion": ".dnsRecursion"}.get(p)
+    rows = ",\n  ".join('("%s", "%s", %s)' % (m_, p_, ("some " + perm(g)) if g and perm(g) else "none") for m_, p_, g in table)
+    out = f"""/- GENERATED by tools/extract.py from {REPO} — do not edit. -/
+namespace Erbium.Generated.Acl
+
+inductive Perm where | dnsRecursion | http | httpLeases | httpMetrics
+deriving DecidableEq, Repr
+
+/-- arms of the router in `http::serve_request`: (method, path, permission that guards the content);
+    `("*", "*", _)` is the catch-all arm -/
+def httpArms : List (String × String × Option Perm) := [
+  {rows}]
+
+/-- `DnsAclHandler::handle_query` checks dns-recursion (and returns REFUSED via `?`) before it
+    hands the query to the router/cache/upstream chain -/
+def dnsAclFirst : Bool := {boolean(order)}
+
+end Erbium.Generated.Acl
+"""
+    write_if_changed(os.path.join(OUT, "Acl.lean"), out)
+
+
 def main():
     os.makedirs(OUT, exist_ok=True)
-    gens = [gen_dhcp, gen_pool]
+    gens = [gen_dhcp, gen_pool, gen_acl]
     for g in gens:
         try:
             g()
